@@ -47,6 +47,17 @@ def shapes():
     add('WITH c AS (%s) SELECT a, b FROM t WHERE a IN (WITH c AS (%s) SELECT a FROM c) AND b IN (SELECT b FROM c)' % (B['lo'], B['hi']), 'nested-in-subquery-shadow')
     add('WITH c AS (%s), d AS (WITH c AS (%s) SELECT a, b FROM c) SELECT c.a, d.a FROM c, d' % (B['lo'], B['hi']), 'nested-in-cte-body-shadow')
     add('WITH c AS (%s) SELECT a, b FROM (WITH d AS (SELECT a, b FROM c) SELECT a, b FROM d) q' % B['lo'], 'nested-sees-outer')
+    # a CTE over a wider table w(k,v,x,z) that is also scanned directly, once or twice, with other columns: the CTE's filter / output columns
+    # are read by nothing else (shared-scan caches and projections must still give the CTE its own rows)
+    for body, bname in (('SELECT k FROM w WHERE v > 1', 'filter-v'), ('SELECT k FROM w WHERE z = 0 OR v = 0', 'filter-zv'), ('SELECT k, z FROM w WHERE v < 3', 'out-z')):
+        wq = 'WITH big AS (%s) ' % body
+        dq = '(%s)' % body
+        for outer, oname in (('SELECT big.k, t1.x FROM big JOIN w t1 ON big.k = t1.k', 'w-once'),
+                             ('SELECT big.k, t1.x, t2.x FROM big JOIN w t1 ON big.k = t1.k JOIN w t2 ON big.k = t2.k', 'w-twice'),
+                             ('SELECT big.k, t1.x, t2.k FROM big JOIN w t1 ON big.k = t1.k JOIN w t2 ON t1.x = t2.x', 'w-twice-other-key'),
+                             ('SELECT b1.k, b2.k, t1.x FROM big b1 JOIN big b2 ON b1.k = b2.k JOIN w t1 ON b1.k = t1.k JOIN w t2 ON t2.k = t1.k', 'cte-twice-w-twice'),
+                             ('SELECT k FROM big WHERE k IN (SELECT x FROM w) AND k IN (SELECT k FROM w WHERE x > 0)', 'w-in-subqueries')):
+            add(wq + outer, 'wide-%s-%s' % (bname, oname), outer.replace('FROM big b1 JOIN big b2', 'FROM %s b1 JOIN %s b2' % (dq, dq)).replace('FROM big', 'FROM %s big' % dq))
     # a CTE named like a base table
     add('WITH t AS (%s) SELECT a, b FROM t' % 'SELECT a, b FROM u', 'cte-shadows-table')
     add('WITH u AS (SELECT a, b FROM t WHERE a = 1) SELECT x.a, y.a FROM u x, t y WHERE x.a = y.a', 'cte-named-like-other-table')
@@ -61,7 +72,8 @@ def run(rep):
     units = []
     for rows in tabs:
         db = {'tables': [table('t', [['a', 'int64'], ['b', 'int64']], [list(r) for r in rows]),
-                         table('u', [['a', 'int64'], ['b', 'int64']], [[7, 7], [None, 8]])]}
+                         table('u', [['a', 'int64'], ['b', 'int64']], [[7, 7], [None, 8]]),
+                         table('w', [['k', 'int64'], ['v', 'int64'], ['x', 'int64'], ['z', 'int64']], [[1, 0, 5, 9], [2, 2, 0, 9], [3, 3, 1, 0], [4, 0, 2, 2], [5, 1, 0, 3], [6, 2, 2, 0], [None, 2, None, 0]])]}
         st = []
         for sql, tag, inl in sh:
             d = {'sql': sql, 'tag': tag, 'nontrivial': None}
@@ -74,7 +86,7 @@ def run(rep):
         units.append({'db': db, 'stmts': st})
     rep.rule = ('all multisets of 1..%d rows over t(a in {NULL,1,2}, b in {1,2}); %d statement shapes: 1-3 CTEs (filter / aggregate bodies) referenced 1-3 times in FROM, in IN / EXISTS / scalar '
                 'subqueries and in both UNION branches, a CTE referring to an earlier one, nested WITH re-using a name in a derived table / subquery expression / CTE body (before and after an outer '
-                'reference), a CTE named like a base table; oracle SQLite 3.40 (lexical scoping), and the same statement with every reference inlined as a derived table' % (2 if quick else 3, len(sh)))
+                'reference), a CTE named like a base table, a CTE over a 4-column table whose own filter / output columns nothing else reads while the table is scanned again once or twice outside it; oracle SQLite 3.40 (lexical scoping), and the same statement with every reference inlined as a derived table' % (2 if quick else 3, len(sh)))
     sqldiff.run(rep, units)
 
 
